@@ -550,7 +550,7 @@ func newObservedMap(pass *analysishelper.EnhancedPass, files []*ast.File) *Obser
 					// docstring (this takes into account the syntax option to group declarations -
 					// in which a single keyword may be used to declare a group)
 					readDocNilabilitySet := func(specDoc *ast.CommentGroup) nilabilitySet {
-						if len(decl.Specs) == 1 {
+						if len(decl.Specs) == 1 && !decl.Lparen.IsValid() {
 							// this reads declarations like type A struct {}
 							return nilabilityFromCommentGroup(decl.Doc)
 						}
